@@ -781,11 +781,71 @@ fn gen_drop_then_add(rng: &mut Rng, out: &mut Vec<Case>) {
     out.push(Case { line: format!("ddl | {}", ops.join(" ; ")), tags });
 }
 
+/// DROP TABLE in a session that rolls back (or is dropped), later — with nothing but reads, inserts or a reopen in
+/// between — a DROP TABLE that commits, then the name is probed, created again with another shape, filled and read,
+/// sometimes across a reopen.  (The rolled-back DROP leaves its mark on the catalog row; the committed DROP must not
+/// take that mark for its own work.)  Clean region.
+fn gen_drop_after_rolled_back_drop(rng: &mut Rng, out: &mut Vec<Case>) {
+    let t = "t";
+    let mut ops: Vec<String> = Vec::new();
+    let unique = rng.chance(1, 3);
+    ops.push(format!("db ct {}(k:big{},v:int)", t, if unique { "*" } else { "" }));
+    let n = rng.range(0, 2);
+    for i in 1..=n {
+        ops.push(format!("db ins {} {} {}", t, i, 10 * i));
+    }
+    if rng.chance(1, 3) {
+        ops.push("db ct u(k:big)".into());
+    }
+    // the DROP that does not happen, once or twice
+    for _ in 0..rng.range(1, 2) {
+        let end = if rng.chance(1, 2) { "rollback" } else { "drop" };
+        if rng.chance(1, 2) {
+            ops.push(format!("s1 begin ; s1 dt {} ; s1 sel {} ; s1 {}", t, t, end));
+        } else {
+            ops.push(format!("s1 begin ; s1 ins {} 7 70 ; s1 dt {} ; s1 {}", t, t, end));
+        }
+        ops.push(format!("db sel {}", t));
+    }
+    match rng.below(3) {
+        0 => ops.push(format!("db ins {} 8 80 ; db sel {}", t, t)),
+        1 => ops.push(format!("reopen ; db sel {}", t)),
+        _ => {}
+    }
+    // the DROP that happens
+    match rng.below(3) {
+        0 => ops.push(format!("s1 begin ; s1 dt {} ; s1 commit", t)),
+        1 => ops.push(format!("s2 begin ; s1 begin ; s1 dt {} ; s1 commit ; s2 sel {} ; s2 commit", t, t)),
+        _ => ops.push(format!("db dt {}", t)),
+    }
+    let probe = |ops: &mut Vec<String>| {
+        ops.push(format!("db sel {}", t));
+        ops.push(format!("db ins {} 9 90", t));
+        ops.push(format!("db dt {}", t));
+    };
+    probe(&mut ops);
+    if rng.chance(1, 3) {
+        ops.push("reopen".into());
+        probe(&mut ops);
+    }
+    // the name is free: another shape
+    ops.push(format!("db ct {}(a:int,b:int,c:int)", t));
+    ops.push(format!("db ins {} 1 2 3 ; db sel {}", t, t));
+    if rng.chance(1, 2) {
+        ops.push(format!("reopen ; db sel {} ; db ins {} 4 5 6 ; db sel {}", t, t, t));
+    }
+    let tags: Vec<String> = vec!["c15".into(), "drop_after_rolled_back_drop".into(), "nt".into(), "clean".into()];
+    out.push(Case { line: format!("ddl | {}", ops.join(" ; ")), tags });
+}
+
 impl Engine for DdlEngine {
     fn gen_cases(&self, rng: &mut Rng, tier: Tier) -> Vec<Case> {
         let mut out = Vec::new();
         for _ in 0..(if tier == Tier::Quick { 150 } else { 1500 }) {
             gen_drop_then_add(rng, &mut out);
+        }
+        for _ in 0..(if tier == Tier::Quick { 60 } else { 600 }) {
+            gen_drop_after_rolled_back_drop(rng, &mut out);
         }
         let want = if tier == Tier::Quick { 600 } else { 6000 };
         let want = want + out.len();
